@@ -133,7 +133,7 @@ CHECKS = {
         packs=["c06"], level="other",
         explanation="R06.1 complete inside/outside split tables over StrokeAlignment (outside + inside = width, larger half inside), R06.2 fill_area/stroke_area offsets (solid: -inside / +outside, non-solid fill: 0) and Styled forwards, "
                     "R06.3 segment/colour pairing: draw path (draw_stroke, draw_stroke_and_fill) and pixel path (three StyledPixelsIterator::next) assign the same colour role to the same scanline segment, segment accessors span the documented ranges, "
-                    "R06.4 both renderers of rectangle/circle/ellipse/rounded rectangle take their areas from style.stroke_area/fill_area of the unmodified primitive (call sites followed through helpers introduced by an edit), R06.5 axis consistency of the stroke/fill area code.",
+                    "R06.4 both renderers of rectangle/circle/ellipse/rounded rectangle take their areas from style.stroke_area/fill_area of the unmodified primitive (call sites followed through helpers introduced by an edit), R06.5 axis consistency of the stroke/fill area code, R06.6 a row of the rounded rectangle's fill area in which the column search finds nothing carries no fill range.",
         claim="Decides the split tables (the statement's own wording) and the structural agreement of the two renderers with fill_area()/stroke_area(); that the scanline generators realise exactly contains() of those areas, and the rectangle's four-border arithmetic, are not decided.",
         note="Necessary conditions; fail closed on unrecognised idioms.",
         technique="decision-table extraction + origin-tree wiring comparison + axis (dimension) analysis over MIR",
